@@ -79,17 +79,20 @@ type EditItem struct {
 }
 
 type Step struct {
-	Kind     string     `json:"kind"`          // phase handoff crypto rekey
-	Key      []byte     `json:"key,omitempty"` // rekey: the key to install (default: the setup's)
-	ASends   bool       `json:"a_sends,omitempty"`
-	SOps     []SOp      `json:"sops,omitempty"`
-	Edit     []EditItem `json:"edit,omitempty"`
-	HasEdit  bool       `json:"has_edit,omitempty"`
-	NoWire   bool       `json:"no_wire,omitempty"` // do not compare this phase\'s wire frames with the model (covered elsewhere)
-	ROps     []ROp      `json:"rops,omitempty"`
-	WhoA     bool       `json:"who_a,omitempty"`
-	SoftFail bool       `json:"soft_fail,omitempty"` // the case goes on after a rejected EndMessageRead ending this phase
-	On       bool       `json:"on,omitempty"`
+	Kind    string     `json:"kind"`          // phase handoff crypto rekey
+	Key     []byte     `json:"key,omitempty"` // rekey: the key to install (default: the setup's)
+	ASends  bool       `json:"a_sends,omitempty"`
+	SOps    []SOp      `json:"sops,omitempty"`
+	Edit    []EditItem `json:"edit,omitempty"`
+	HasEdit bool       `json:"has_edit,omitempty"`
+	NoWire  bool       `json:"no_wire,omitempty"` // do not compare this phase\'s wire frames with the model (covered elsewhere)
+	ROps    []ROp      `json:"rops,omitempty"`
+	WhoA    bool       `json:"who_a,omitempty"`
+	// ReadOn: the receiver keeps issuing its receive ops after a failure (only meaningful for
+	// frame-level reads after faults that keep the framing intact)
+	ReadOn   bool `json:"read_on,omitempty"`
+	SoftFail bool `json:"soft_fail,omitempty"` // the case goes on after a rejected EndMessageRead ending this phase
+	On       bool `json:"on,omitempty"`
 }
 
 type Setup struct {
@@ -591,7 +594,7 @@ func (w *world) phase(st *Step) *PhaseObs {
 	for _, op := range st.ROps {
 		r := doRecv(rcv, op)
 		po.RRes = append(po.RRes, r)
-		if !r.OK {
+		if !r.OK && !st.ReadOn {
 			break
 		}
 	}
